@@ -142,6 +142,7 @@ func TestVerif_C11(t *testing.T) {
 		}
 	}
 	vC11Custodian(t, r)
+	vC11AheadOfClock(t, r)
 	r.Finish()
 }
 
@@ -284,4 +285,23 @@ func vC11Custodian(t *testing.T, r *verifkit.Run) {
 	if r.Counter("custodian_updates_finalized") < 2 {
 		r.Inconclusive("fewer than 2 custodian updates finalized")
 	}
+}
+
+// vC11AheadOfClock: see verifAheadOfClock (feedops_test.go); the views are the membership lists with consensus
+// indexes, both thresholds and the pledging node.
+func vC11AheadOfClock(t *testing.T, r *verifkit.Run) {
+	verifAheadOfClock(t, r, "c11k", "C11|membership|record-stamped-ahead-of-the-local-clock", func(f *verifFeed, q uint64) string {
+		var b []byte
+		for _, withAccepted := range []bool{false, true} {
+			for _, cn := range f.node.NodesListWithoutState(q, withAccepted) {
+				b = append(b, []byte(fmt.Sprintf("%s|%s|%d|%d;", cn.IdForNetwork, cn.State, cn.Timestamp, cn.ConsensusIndex))...)
+			}
+			b = append(b, '#')
+		}
+		b = append(b, []byte(fmt.Sprintf("T%d/%d", f.node.ConsensusThreshold(q, false), f.node.ConsensusThreshold(q, true)))...)
+		if pn := f.node.PledgingNode(q); pn != nil {
+			b = append(b, []byte("P"+pn.IdForNetwork.String())...)
+		}
+		return string(b)
+	})
 }
